@@ -198,7 +198,7 @@ Lemma mvF_why a : 0 <= a < A -> mvF a = true ->
 Proof.
   intros Ha M. pose proof (mvF_node a Ha M) as Hn. unfold mvF, moves, faF, final_act in M.
   destruct (znth false (fin s) a) eqn:F; [cbn in M; lia|]. split; auto.
-  rewrite (nodes_nth a Ha) in M.
+  rewrite (nodes_nth a Ha) in M. replace (nodeF a =? -1) with false in M by lia. cbn [negb andb] in M.
   rewrite jget_in in M by (rewrite (wf_ci1 c s HW a Ha); fold N; lia).
   unfold visited, gat.
   destruct (negb (znth (-1) (znth [] (cidx s) a) (nodeF a) =? -1)) eqn:V; [left; auto|right].
@@ -234,14 +234,8 @@ Lemma edges_s' : edges s' = update_active A (ntypes s) (pos s') (edges s).
 Proof. rewrite pos_s'. unfold s', step. cbn [fst edges]. fold A. f_equal. apply tab_ext. intros a Ha.
   unfold mvF, faF, newaL, finals_of. fold A. rewrite (znth_tab (-1)) by auto. rewrite (nodes_nth a Ha). reflexivity. Qed.
 
-Lemma amask_s' : amask s' = make_mask A (edges s') (pos s') (fin s).
-Proof. rewrite edges_s', pos_s'. unfold s', step. cbn [fst amask]. fold A.
-  assert (E : tab A (fun a => if moves (znth (-1) (finals_of c s acts perm) a) (znth (-1) (nodes_of c s acts) a)
-                              then znth (-1) (nodes_of c s acts) a else znth 0 (pos s) a)
-              = tab A (fun a => if mvF a then nodeF a else znth 0 (pos s) a)).
-  { apply tab_ext. intros a Ha. unfold mvF, faF, newaL, finals_of. fold A. rewrite (znth_tab (-1)) by auto.
-    rewrite (nodes_nth a Ha). reflexivity. }
-  rewrite E. reflexivity. Qed.
+Lemma amask_s' : amask s' = make_mask A (edges s') (pos s') (fin s').
+Proof. reflexivity. Qed.
 
 Lemma static_s' : ntypes s' = ntypes s /\ adjm s' = adjm s /\ ntc s' = ntc s /\ sc s' = sc s + 1.
 Proof. unfold s', step. cbn [fst ntypes adjm ntc sc]. auto. Qed.
@@ -444,9 +438,9 @@ Proof.
   - apply C_s'.
 Qed.
 
-(* C04: the new mask = (not finished BEFORE the step) && legal move in the new state *)
+(* C04: the new mask = (not finished in the NEW state) && legal move in the new state *)
 Theorem mask_s' a j : 0 <= a < A -> 0 <= j < N ->
-  gat false (amask s') a j = negb (znth false (fin s) a) && legal_move A s' a j.
+  gat false (amask s') a j = negb (znth false (fin s') a) && legal_move A s' a j.
 Proof.
   intros Ha Hj. unfold gat. rewrite amask_s'. unfold make_mask. rewrite (znth_tab []) by auto.
   pose proof (pos'_range a Ha) as Rp. pose proof WF_s' as W'.
